@@ -570,6 +570,12 @@ def corpus():
     out.append(rear_stop_spec(None))
     # strongly curved hyperboloid right behind the stop, wide field (the two sheets of the quadric)
     out.append(wide_hyperboloid_spec(None))
+    # Chebyshev surface AT the stop with normalisation radius = EPD/2 = 1: the axis-aligned marginal rays land exactly on
+    # the edge of the normalisation square (x/norm = 1, where the closed-form derivative of T_n is 0/0)
+    out.append(dict(base, name='chebyshev-rim-at-stop', aperture=['EPD', 2.0], fields=[[0.0, 0.0, 0.0, 0.0], [3.0, 0.0, 0.0, 0.0]], surfaces=[
+        {'type': 'chebyshev', 'radius': 25.0, 'conic': 0.0, 'coefficients': [[0.0, 2e-3, 1e-3], [3e-3, 1e-3, 0.0], [2e-3, 0.0, 5e-4]],
+         'norm_x': 1.0, 'norm_y': 1.0, 'thickness': 1.0, 'material': ['ideal', 1.5, 0.0], 'is_stop': True},
+        {'type': 'standard', 'radius': -30.0, 'thickness': 20.0, 'material': 'air'}]))
     # one frame component at a time: tilt about y only, tilt about x only, decentre only
     out.append(dict(base, name='single-tilts', surfaces=[
         {'type': 'standard', 'radius': 60.0, 'thickness': 5.0, 'material': ['ideal', 1.6, 0.0], 'is_stop': True, 'ry': 0.06},
